@@ -449,7 +449,7 @@ fn make_case(progs: &[Vec<R>], strat: Strat, mailbox: Mailbox, start_err_at: Opt
         desc,
         exec: ExecCfg { horizon, ..ExecCfg::default() },
         bound,
-        scene: Box::new(ProgScene {
+        scene: Box::new(ProgScene { variant: crate::progscene::current_variant(),
             attach: crate::progscene::Attach::None, spawn: SpawnCfg { mailbox, strat, timeout: None },
             roles: vec![role],
             clients,
